@@ -181,6 +181,21 @@ func init() {
 			}
 			r := c.Rand(uint64(i))
 			base := gen.RandShape(r, gen.ShapeOpts{MaxIns: 4, MinIns: 2, MaxOuts: 4, ScriptLens: []int{0, 1, 25, 75, 76, 255, 256, 300}})
+			for k := range base.Outs { // some outputs are data scripts made of small pushes, or one-/two-byte scripts
+				switch r.Intn(6) {
+				case 0:
+					sc := []byte{0x6a}
+					if r.Bool() {
+						sc = []byte{0x00, 0x6a}
+					}
+					for n := 1 + r.Intn(4); n > 0; n-- {
+						sc = append(sc, gen.Push(r.Bytes(1+r.Intn(5)))...)
+					}
+					base.Outs[k].Script = sc
+				case 1:
+					base.Outs[k].Script = prng.Pick(r, [][]byte{{0x00}, {0x6a}, {0x51}, {0x00, 0x6a}, {0x00, 0x00}, {0x4c}, {0x01}, {0x6a, 0x4c}, {0x00, 0x6a, 0x01}})
+				}
+			}
 			for k := range base.Ins { // "signed": every unlocking script present and non-empty
 				if len(base.Ins[k].Unlock) == 0 {
 					base.Ins[k].Unlock = gen.Push(r.Bytes(1 + r.Intn(72)))
@@ -445,6 +460,15 @@ func c16SameTx(a, b *bt.Tx) string {
 
 // c16TxDialects marshals tx in the four transaction dialects and judges the round trip.
 func c16TxDialects(c *mon.Ctx, tx *bt.Tx, stage string) {
+	// marshalling is a read: the transaction must serialise afterwards as it did before
+	before := tx.ExtendedBytes()
+	defer func() {
+		if after := tx.ExtendedBytes(); !bytes.Equal(after, before) {
+			c16Viol(c, "C16:marshalling-changed-the-transaction", func() string {
+				return fmt.Sprintf("after marshalling (stage %s) the transaction serialises to %x, before: %x", stage, after, before)
+			})
+		}
+	}()
 	other := &bt.Tx{Version: 2, LockTime: 5}
 	other.AddOutput(&bt.Output{Satoshis: 1, LockingScript: bscript.NewFromBytes([]byte{0x51})})
 	// what MarshalJSON returned belongs to the caller: it must still be the same document after later marshalling
